@@ -847,6 +847,8 @@ struct RunCfg {
     timers: Vec<(bool, u32, u32, u64, u8, u8)>,
     lock_seed: u64,
     steps: usize,
+    /// the machine is reset (the usual "run again" path) before the program is loaded
+    reset_first: bool,
 }
 fn gen_run_cfg(r: &mut Rng) -> RunCfg {
     let init = match r.below(5) { 0 => MachineInitStrategy::Known { value: r.u16() }, _ => MachineInitStrategy::Seeded { seed: r.next() } };
@@ -866,11 +868,12 @@ fn gen_run_cfg(r: &mut Rng) -> RunCfg {
     }
     src.push_str(&format!("BRnzp #-{}\n.end\n", 1 + r.below(n.min(200))));
     let timers = (0..r.below(3)).map(|_| { let lo = 1 + r.below(6) as u32; (r.chance(5, 6), lo, lo + r.below(9) as u32, r.next(), 0x80 + r.below(4) as u8, r.below(8) as u8) }).collect();
-    RunCfg { flags, src, input: (0..r.below(6)).map(|_| r.next() as u8).collect(), kb_ie: r.chance(1, 3), timers, lock_seed: r.next(), steps: 20 + r.below(120) as usize }
+    RunCfg { flags, src, input: (0..r.below(6)).map(|_| r.next() as u8).collect(), kb_ie: r.chance(1, 3), timers, lock_seed: r.next(), steps: 20 + r.below(120) as usize, reset_first: r.chance(1, 3) }
 }
 fn build_run(c: &RunCfg) -> Option<Machine> {
     let obj = parse_ast(&c.src).ok().and_then(|a| assemble(a).ok())?;
     let mut sim = Simulator::new(c.flags);
+    if c.reset_first { sim.reset(); }
     sim.load_obj_file(&obj).ok()?;
     let mut m = bare_machine(sim);
     attach_kb(&mut m, c.input.clone(), c.kb_ie);
@@ -888,7 +891,7 @@ fn run_two_runs(ctx: &Ctx) {
         let mut r = root.fork(k as u64 + 1);
         let c = gen_run_cfg(&mut r);
         let (Some(mut a), Some(mut b2)) = (build_run(&c), build_run(&c)) else { ctx.stat("repro.program_refused", 1); return };
-        if snap(&a.sim) != snap(&b2.sim) { ctx.fail("C31", "two_runs_differ", format!("two machines built from {:?} differ before the first step", c.flags.machine_init), String::new()); return; }
+        if snap(&a.sim) != snap(&b2.sim) { ctx.fail("C31", "two_runs_differ", format!("two machines built from {:?}{} differ before the first step", c.flags.machine_init, if c.reset_first { " and reset" } else { "" }), String::new()); return; }
         let state = if k < model_cases { Some(t_state_now(&mut a, 0, &[])) } else { None };
         let (mut la, mut lb) = (Rng::new(c.lock_seed), Rng::new(c.lock_seed));
         let mut envs = vec![];
